@@ -13,6 +13,7 @@ PROPERTY = Property(
     standins=[StandIn("find_peaks = gap-threshold clusters", B.find_peaks, B.find_peaks.harness, budget={"quick": 3000, "thorough": 40000}),
               StandIn("hits -> peaks -> sum_waveform: area conservation", B.peak_chain, B.peak_chain.harness, budget={"quick": 3000, "thorough": 40000}),
               StandIn("replace_merged", B.replace_merged, B.replace_merged.harness, budget={"quick": 3000, "thorough": 40000}),
+              StandIn("find_peak_groups = gap-threshold clusters of intervals", B.find_peak_groups, B.find_peak_groups.harness),
               StandIn("merge_peaks", B.merge_peaks, B.merge_peaks.harness, budget={"quick": 3000, "thorough": 40000}),
               StandIn("sum_waveform on the children of a split", B.sum_waveform_children, B.sum_waveform_children.harness, budget={"quick": 3000, "thorough": 40000}),
               StandIn("split_peaks tiling (both split finders)", B.split_peaks, B.split_peaks.harness, budget={"quick": 3000, "thorough": 40000}),
